@@ -90,8 +90,8 @@ class VMDK(AlignedStream):
                 self.disks.append(RawDisk(fh))
 
         size = 0
-        for disk in self.disks:
-            if size != 0:
+        for idx, disk in enumerate(self.disks):
+            if idx != 0:
                 self._disk_offsets.append(self.sector_count)
             disk.offset = size
             disk.sector_offset = self.sector_count
@@ -147,7 +147,7 @@ class RawDisk:
         # Offset in the file at which the data of this extent starts (the offset of a FLAT extent line)
         self.data_offset = data_offset
 
-        if not size:
+        if size is None:
             fh.seek(0, io.SEEK_END)
             self.size = fh.tell()
             fh.seek(0)
